@@ -27,9 +27,11 @@ type Instance struct {
 	Goal func(w *vrt.World) bool
 	// Observe renders the terminal observation (for the histogram of distinct
 	// outcomes; vacuity check).
-	Observe func(w *vrt.World) string
-	// EdgeLabel classifies the transition just taken (optional; bit flags).
+	Observe  func(w *vrt.World) string
 	Counters func() map[string]int
+	// Project renders the property-relevant (monitor) state canonically; used by
+	// the key-mode cross-check: it must be a function of what the monitors hash.
+	Project func(w *vrt.World) string
 }
 
 // Scenario describes a closed system and how to build it.
@@ -84,20 +86,24 @@ type Violation struct {
 }
 
 type Explorer struct {
-	Sc      *Scenario
-	Bound   int // preemption bound, -1 = unbounded
-	Budget  time.Duration
-	Graph   bool // record edges and check bottom SCCs
-	MaxSt   int  // cap on states (0 = none)
-	visited map[uint64]int32
-	cost    []int16
-	flags   []uint8
-	edges   [][2]int32
-	nodes   []*node // representative node per state
-	res     Result
-	obs     map[string]int
-	start   time.Time
+	Sc       *Scenario
+	Bound    int // preemption bound, -1 = unbounded
+	Budget   time.Duration
+	Graph    bool // record edges and check bottom SCCs
+	MaxSt    int  // cap on states (0 = none)
+	visited  map[uint64]int32
+	cost     []int16
+	flags    []uint8
+	edges    [][2]int32
+	nodes    []*node // representative node per state
+	res      Result
+	obs      map[string]int
+	start    time.Time
 	lastPath []int32
+	// CollectProj: record Project() of every state reached (cross-check)
+	CollectProj bool
+	Proj        map[string]bool
+	DepthIsEnd  bool // treat the step limit as an ordinary end of the execution
 }
 
 const (
@@ -282,6 +288,12 @@ func (e *Explorer) execute(n *node, stack []*node) []*node {
 			}
 			cur.state = idx
 			cur.key = key
+			if e.CollectProj && inst.Project != nil {
+				if e.Proj == nil {
+					e.Proj = map[string]bool{}
+				}
+				e.Proj[inst.Project(w)] = true
+			}
 			if int(cur.depth) > e.res.MaxDepth {
 				e.res.MaxDepth = int(cur.depth)
 			}
@@ -298,6 +310,9 @@ func (e *Explorer) execute(n *node, stack []*node) []*node {
 		}
 		if out != vrt.Running {
 			e.res.Outcomes[out.String()]++
+			if out == vrt.Depth && e.DepthIsEnd {
+				return stack
+			}
 			if out == vrt.Depth {
 				if spin := detectSpin(w); spin != "" {
 					w.SpinInfo = spin
